@@ -151,9 +151,52 @@ def kind_match_decides(ck, R, body, what, allowed_first=()):
         ck.ok(R, inst, "no return outside the arms of the TyKind match")
 
 
+def fields_in_declaration_order(ck, facts, R):
+    ck.rule(R, "K4/K7 (order-preserving construction): the Sized rule for a struct and the struct's well-formedness rule single out its "
+               "LAST field (last_field_of_struct), so AdtVariantDatum.fields must list the fields in declaration order: wherever the "
+               "lowering constructs an AdtVariantDatum, the `fields` value comes straight from an order-preserving traversal of the "
+               "declared fields - no map / set keyed by name, no sort, rev, reverse or dedup on the way")
+    from kit import thir_all, let_inits, resolve_var
+    REORDER = ("BTreeMap", "HashMap", "BTreeSet", "HashSet", "FxHashMap", "FxHashSet", "IndexMap", "BinaryHeap")
+    REORDER_FNS = ("sort", "sort_by", "sort_by_key", "sort_unstable", "sort_unstable_by", "sort_unstable_by_key", "rev", "reverse",
+                   "dedup", "swap", "rotate_left", "rotate_right", "into_values", "values", "into_keys")
+    n = 0
+    for key, b in sorted(facts.bodies("chalk_integration").items()):
+        if b.thir is None:
+            continue
+        for root in [b.thir]:
+            inits = let_inits(root)
+            for x in walk(root):
+                if x.get("k") == "adt" and x.get("adt") == "chalk_solve::rust_ir::AdtVariantDatum":
+                    n += 1
+                    f = dict(x.get("fields") or [])
+                    src = f.get("fields")
+                    seen_ = []
+                    todo, done = [src], 0
+                    while todo and done < 12:
+                        e_ = todo.pop()
+                        done += 1
+                        for y in walk(e_) if e_ is not None else []:
+                            if y.get("k") == "call":
+                                fn = str(y.get("res") or y.get("fn") or "")
+                                last = fn.split("::")[-1]
+                                if any(r_ in fn for r_ in REORDER) or last in REORDER_FNS:
+                                    seen_.append(fn)
+                            if y.get("k") == "var" and y.get("n") in inits and inits[y["n"]] is not None:
+                                todo.append(inits.pop(y["n"]))
+                    inst = "%s:AdtVariantDatum.fields" % short(key.split("::{")[0])
+                    if seen_:
+                        ck.violation(R, inst, b.where(x.get("ln")), "the field list passes through `%s`: declaration order is lost and with it "
+                                     "which field is the (possibly unsized) tail" % seen_[0])
+                    else:
+                        ck.ok(R, inst, "order-preserving")
+    ck.floor(R, "AdtVariantDatum-constructions", n, 1)
+
+
 def run(ck, facts, tier):
     from props.c10 import solver_per_revision
     solver_per_revision(ck, facts, "C08.SOLVER-PER-REVISION")
+    fields_in_declaration_order(ck, facts, "C08.FIELDS-IN-DECLARATION-ORDER")
     R = "C08.SIZED-TABLE"
     ck.rule(R, "K1 vs spec: add_sized_program_clauses maps every TyKind to the outcome class the language rules dictate")
     sz = need_body(ck, facts, R, BT + "sized::add_sized_program_clauses")
